@@ -190,6 +190,7 @@ def run_case(case, schedule, opts):
     except simk.SimStop as e:
         stop = e.reason
         result['stop_detail'] = e.detail
+    K.freeze()
     ev = REC.events
     o_launch = [e for e in ev if e[2] == 'launch' and e[3] == oref]
     o_exit = {e[4]['n']: e for e in ev if e[2] == 'exit' and e[3] == oref}
@@ -222,18 +223,41 @@ def run_case(case, schedule, opts):
         if stopped and notif and not ext_cancel and kill_after is None and could_consume and None not in p_last:
             last_out = max(p_last)
             if not any(e[0] > last_out for e in o_launch):
-                V('b:stopped-without-observing-final-output',
+                V('b:stopped-without-observing-final-output' if o_launch else 'b:stopped-without-ever-executing',
                   {'last_output_seq': last_out, 'launch_seqs': [e[0] for e in o_launch], 'notified_seq': notif[0][0]})
         # (c) bounded attempts after the notification
         if notif:
             N = notif[0][0]
             after = [e for e in o_launch if e[0] > N]
-            if len(after) > retries + 2:
-                V('c:too-many-executions-after-notification', {'after': len(after), 'retries': retries})
+            kstarts = [e[0] for e in ev if e[2] == 'kstart' and e[3] == oref and not e[4]['last']]
+            # classify: an iteration of the engine's monitor launches at most one task; a second launch in the same
+            # iteration is the one restart of a ResourceExhausted last run; an iteration that began before the
+            # notification but launched after it was in flight
+            began_of = {}
+            n_regular = n_inflight = n_restart = 0
+            restarts_ev = [e[0] for e in ev if e[2] == 'restart-begin' and e[3] == oref]
+            prev = 0
+            for e in o_launch:
+                began = max([k for k in kstarts if k < e[0]] or [0])
+                began_of[e[0]] = began
+                is_restart = any(prev < r < e[0] for r in restarts_ev)
+                prev = e[0]
+                if e[0] > N:
+                    if is_restart:
+                        n_restart += 1
+                    elif began < N:
+                        n_inflight += 1
+                    else:
+                        n_regular += 1
+            if n_regular > retries + 1 or n_inflight > 1 or n_restart > 1:
+                V('c:too-many-executions-after-notification',
+                  {'regular': n_regular, 'inflight': n_inflight, 'restart': n_restart, 'retries': retries})
+            # "such" an execution began (its monitor iteration started) after the notification
             first_ok_end = None
             for e in after:
+                began = began_of[e[0]]
                 x = o_exit.get(e[4]['n'])
-                if x is not None and x[4]['reason'] == 'Success':
+                if began > N and x is not None and x[4]['reason'] == 'Success':
                     first_ok_end = x[0]
                     break
             if first_ok_end is not None:
@@ -242,14 +266,27 @@ def run_case(case, schedule, opts):
                     V('c:launch-after-successful-final-execution', {'launches_after': len(later)})
             if not stopped:
                 V('c:observer-never-stops', {'notified_at': notif[0][1], 'now': K.clock})
-        # anything launched during the settle period after the stage ended while the engine reported dead
-        late = [e for e in o_launch if e[1] > t_stage_end + 1e-6] if not alive_at_stage_end else []
-        if late:
-            V('c:launch-after-engine-reported-dead', {'n': len(late)})
+        # A launch after the engine reported dead (an iteration that was already in flight when the kill or the kill
+        # delay landed) is counted, not judged: the engine's stop is documented as soft and the statement bounds
+        # the number of further attempts, it does not forbid the in-flight one.
+        if not alive_at_stage_end and [e for e in o_launch if e[1] > t_stage_end + 1e-6]:
+            REC.count('probe.launch_after_engine_reported_dead')
     elif stop is not None:
         # liveness: the observer (and hence the stage) must stop within the bound once producers are done
-        V('c:no-termination-within-bound', {'stop': stop, 'vtime': K.clock, 'notified': bool(notif),
-                                            'detail': result.get('stop_detail')})
+        # only C13's business once the precondition holds (all producers finished => the observer was notified);
+        # a stage that hangs because a *producer* never reaches a final state belongs to C02
+        try:
+            o_alive = controller.get_compstate(oref).engine.isAlive()
+        except Exception:
+            o_alive = None
+        if notif and o_alive:
+            V('c:no-termination-within-bound', {'stop': stop, 'vtime': K.clock, 'notified_at': notif[0][1],
+                                                'detail': result.get('stop_detail')})
+        elif notif:
+            # the observer's engine did stop; that the *component* or the stage never became final is C02's business
+            REC.count('probe.capped_with_observer_engine_stopped')
+        else:
+            REC.count('probe.capped_before_producers_finished')
     for e in ev:
         if e[2] in ('launch', 'exit', 'output', 'notified', 'finish') and e[3] in ([oref] + prefs):
             REC.note_abstract(e[2], e[3])
